@@ -630,6 +630,7 @@ func main() {
 			gatedBatchBoundary(r, opts, c.n, c.hold, c.bounce, master.Int63())
 		}
 		gatedGrid(r, opts, master.Int63())
+		threeParty(r, opts, master.Int63())
 		concurrentPhase(r, opts, master.Int63())
 	}
 	r.Floor(int64(r.Pick(10000, 25000)))
